@@ -79,17 +79,6 @@ Definition res_ty_corrb (a b : result ty) : bool :=
   | _, _ => false
   end.
 
-Definition opt_corrb (a b : option ty) : bool :=
-  match a, b with
-  | None, None => true
-  | Some x, Some y => corrb x y
-  | _, _ => false                   (* absent and NoneType (or any type) are never confused *)
-  end.
-
-Definition args_corrb (a b : list (string * ty)) : bool :=
-  Nat.eqb (List.length a) (List.length b)
-  && forallb (fun f => match lookup_f (fst f) b with Some y => corrb (snd f) y | None => false end) a.
-
 Definition opt_json_eqb (a b : option json) : bool :=
   match a, b with
   | None, None => true
